@@ -795,7 +795,25 @@ SnipsOf(K) ==
     \cup (IF "call195" \in K THEN {P(0) \o P(0) \o P(0) \o P(0) \o P(0) \o P(195) \o P(200000) \o <<241, 80>>} ELSE {})
     \cup (IF "call194" \in K THEN {P(0) \o P(0) \o P(0) \o P(0) \o P(0) \o P(194) \o P(60000) \o <<241, 80>>} ELSE {})
     \cup (IF "rdata" \in K
-          THEN {<<61>> \o P(2) \o <<85>>, P(1) \o P(0) \o P(0) \o <<62>>, P(33) \o P(0) \o P(0) \o <<62>>} ELSE {})
+          THEN {<<61>> \o P(2) \o <<85>>, P(1) \o P(0) \o P(0) \o <<62>>, P(33) \o P(0) \o P(0) \o <<62>>,
+                P(32) \o <<81>> \o P(2) \o <<85>>}                        \* observe memory word 32..63 (a call's output area)
+          ELSE {})
+    \* callees that return / revert with NON-ZERO data (what the caller finds in its output area and in
+    \* its return data buffer is then observable)
+    \cup (IF "bodyD" \in K
+          THEN {P(7) \o P(0) \o <<82>> \o P(32) \o P(0) \o <<243>>, P(7) \o P(0) \o <<82>> \o P(64) \o P(0) \o <<243>>,
+                P(7) \o P(0) \o <<82>> \o P(32) \o P(0) \o <<253>>}
+          ELSE {})
+    \* calls with input mem[0..32) = 7 and output area mem[32..64): every call kind to the next contract
+    \* and to the identity precompile; result stored
+    \cup (IF "callD" \in K
+          THEN {P(7) \o P(0) \o <<82>> \o P(32) \o P(32) \o P(32) \o P(0) \o (IF op \in {241, 242} THEN P(0) ELSE <<>>) \o P(t)
+                  \o P(40000) \o <<op>> \o P(3) \o <<85>> : op \in {241, 242, 244, 250}, t \in {194, 4}}
+          ELSE {})
+    \* a further CALL with output area mem[32..64) and no input: to the next contract, an EOA, the identity precompile
+    \cup (IF "callO" \in K
+          THEN {P(32) \o P(32) \o P(0) \o P(0) \o P(0) \o P(t) \o P(40000) \o <<241>> \o P(3) \o <<85>> : t \in {194, 171, 4}}
+          ELSE {})
     \cup (IF "create" \in K
           THEN {Poke(ic, 1) \o (IF op = 245 THEN P(sl) ELSE <<>>) \o P(Len(ic)) \o P(0) \o P(v) \o <<op>> \o a :
                   ic \in InitCodes, op \in {240, 245}, sl \in {0, 1}, v \in {0, 1}, a \in After}
